@@ -96,7 +96,8 @@ class _Break(Exception):
 class IndexInterp:
     MAX_STEPS = 20000
 
-    def __init__(self, env=None, symbolic=(), on_call=None):
+    def __init__(self, env=None, symbolic=(), on_call=None, check_asserts=False):
+        self.check_asserts = check_asserts
         self.env = dict(env or {})
         self.symbolic = set(symbolic)       # names of arrays whose contents are symbolic
         self.on_call = on_call              # callback(node, interp) -> value or NotImplemented
@@ -122,6 +123,8 @@ class IndexInterp:
             return tuple(self.ev(x) for x in e.elts)
         if isinstance(e, ast.List):
             return [self.ev(x) for x in e.elts]
+        if isinstance(e, ast.Set):
+            return [self.ev(x) for x in e.elts]          # membership tests and (order-insensitive) uses only
         if isinstance(e, ast.Dict) and all(k is not None for k in e.keys):
             out = {}
             for k, v in zip(e.keys, e.values):
@@ -579,6 +582,13 @@ class IndexInterp:
             elif isinstance(s, (ast.Pass, ast.Import, ast.ImportFrom)):
                 continue
             elif isinstance(s, ast.Assert):
+                if self.check_asserts:
+                    try:
+                        okk = self.truth(self.ev(s.test))
+                    except AnalysisError:
+                        okk = True              # an assertion on something symbolic is taken to hold
+                    if not okk:
+                        raise AnalysisError("the index program raises: AssertionError `%s`" % src(s.test)[:60])
                 continue
             elif isinstance(s, ast.Expr) and isinstance(s.value, ast.Call):
                 c = s.value
